@@ -3,12 +3,12 @@ package main
 // C05: 1005/1006 decoding and display.
 
 import (
-	"math"
-	"strconv"
 	"encoding/hex"
 	"fmt"
 	"log/slog"
+	"math"
 	"math/rand"
+	"strconv"
 	"strings"
 
 	"github.com/goblimey/go-ntrip/rtcm/type1005"
